@@ -572,7 +572,7 @@ def gen_thr(seed, tier):
                 (2, 2, [(1, 0, 2), (2, 2, 3)], [[1, 100, 101], [0, 102], [10]]),
                 (1, 0, [(0, 1, 2, 1), (0, 1, 2, 0)], [[0, 100], [10]]),
                 (1, 0, [(0, 1, 2, 2), (0, 1, 2, 0), (0, 0, 2, 0)], [[0, 100], [0, 101], [10]])]):
-            cases += thr_exhaustive("tx%d" % k, mn, mx, subs, prog, 9)
+            cases += thr_exhaustive("tx%d" % k, mn, mx, subs, prog, 9 if len(subs) <= 2 else 7)
     cases.append(Case("pubt", "tbad0", [[1, 0], [100, 0, 0, 1], [102]]))
     cases.append(Case("pubt", "tbad1", [[1, 0], [100, 0, 3, 1, 0], [0, 1], [102, 0]]))
     cases.append(Case("pubt", "tbad2", [[1, 0], [100, 0, 0, 1, 0], [0, 1]]))
